@@ -109,3 +109,10 @@ claim("C18", "property-based testing: generated smooth networks, differential vs
       "rate equations (the observed error reaches > 30% of the bound in a third of the cases, so a wrong stencil, step, "
       "orientation or scheme label is visible); parameter dictionary unchanged; repeatable.",
       _TB + "; mpmath's numerical differentiation at 40 digits", "DESIGN.md section 4 C18")
+
+claim("C15", "property-based testing: reference cost from the definition (independent integration) + metamorphic permutation / repetition relations (Hypothesis)",
+      "4k / 40k generated inference setups (1..4 trajectories, 1..3 measurements, norm 1..3, per-trajectory grids, "
+      "initial and parameter conditions, priors, theta sequences): exact data alignment of LL_data, cost vs reference "
+      "log-prior minus p-norm of data minus DOP853 simulation (1e-5), -inf outside the support, repetition and "
+      "permutation invariance; the stochastic cost against a replay of the identical seeded SSA runs.",
+      _TB + "; scipy's DOP853; for the stochastic cost bioscrape's own SSA on fresh models", "DESIGN.md section 4 C15")
